@@ -794,6 +794,24 @@ def correspondence_arc(ctx, dist, descs):
 # ----------------------------------------------------------------------------------------------------------
 def run(ctx):
     ctx.prove(props=["C09", "C09_arc", "C09_wrappers"])
+    # make_feasible of the sequence / arc formulation regenerated from the source and proved equal to Heur.v / Heur_arc.v
+    import translate_heursa as T
+    ctx.gen_step("heursa", T.translate, "C09_gen",
+                 "harness/translate_heursa.py + translate_enumcore.py (ast -> Gallina printer in the exception monad for "
+                 "SequenceBasedRoutingProblem.make_feasible / reset_build_flags; combinators: coq/theories/PyHeur.v, PyHeurSeq.v; "
+                 "callees: the seqenum / vrptw models regenerated as Hs*Gen.v with their equality proofs re-checked)")
+    ctx.gen_step("heursa_arc", T.translate_arc, "C09_arc_gen",
+                 "harness/translate_heursa.py + translate_enumcore.py (the same printer for ArcBasedRoutingProblem.make_feasible / "
+                 "check_and_add_exit_arc, `while` with fuel; combinators: coq/theories/PyHeur.v, PyHeurArc.v; callees: the arcenum / "
+                 "vrptw models regenerated as Ha*Gen.v with their equality proofs re-checked)")
+    # make_feasible of the path formulation (generate_route, add_routes_better, get_sampled_key, get_routes) regenerated
+    # from the source and proved equal to Heur.v (path part)
+    import translate_heurpath as THP
+    ctx.gen_step("heurpath", THP.translate, "C09_path_gen",
+                 "harness/translate_heurpath.py (ast -> Gallina printer for the path heuristic: generate_route, add_routes_better, "
+                 "make_feasible, get_sampled_key, get_route_names, get_routes; state-passing loops with break / continue / try, "
+                 "np.random.choice and f-strings as oracles; meaning of the emitted combinators: coq/theories/PyHeurPath.v) + "
+                 "harness/translate_path.py (check_arc, add_route: coq/gen/PathGen.v)")
     dist = collections.Counter()
     reported = set()
     sweep_instances(ctx, dist, reported)
